@@ -357,6 +357,17 @@ pub fn c02(rec: &mut Rec, rng: &mut Rng, thorough: bool) {
         rec.count(&format!("kind:{}", descr));
         rec.count(if s.error.is_some() { "end:error" } else { "end:ok" });
         rec.op(&format!("spec feed {} {}", limit, hx(&stream)), &s.line());
+        // the same stream one byte per read: what is accepted and which error names the first offender must not
+        // depend on where the reads cut (every cut position at once, incl. inside multi-byte characters and tokens)
+        if i % 3 == 1 && stream.len() <= 700 {
+            rec.case(&format!("{}-bytewise", descr));
+            let bytes: Vec<Vec<u8>> = stream.iter().map(|b| vec![*b]).collect();
+            let (_d2, s2) = run_stream(rec, rng, limit, &bytes, 0, 0);
+            rec.op(&format!("spec feed {} {}", limit, hx(&stream)), &s2.line());
+            if s2.line() != s.line() {
+                rec.oracle_fail("C02", &format!("fed in one piece: {} — fed one byte per read: {}", s.line(), s2.line()), &[format!("spec feed {} {}", limit, hx(&stream))]);
+            }
+        }
     }
     // numeric edge values of Content-Length
     for v in ["0", "007", "4294967295", "4294967296", "-1", "", "+3", "3", " 3 ", "3 3"] {
@@ -664,6 +675,61 @@ pub fn c04(rec: &mut Rec, rng: &mut Rng, thorough: bool) {
             let ok = errs.is_empty() && del.len() == 2 && (n == 0 || del[0].text_nofiles.contains(&format!("body={} ", hx(&body))));
             if !ok {
                 rec.oracle_fail("C04", &format!("L={} n={} followed by a pipelined request: errors {:?}, {} requests delivered", l, n, errs, del.len()), &d.log);
+            }
+        }
+    }
+    // a long REQUEST line that starts at a small buffer offset: the last k bytes of the previous request's body arrive
+    // in the same read, in front of it; a long HEADER line that starts right behind the short remainder of a
+    // carried-over header line
+    for &len in &[1000usize, 1016, 1017, 1020, 1022, 1023, 1024, 1025, 1030] {
+        for &k in &[1usize, 2, 7, 15, 16, 29] {
+            for is_reqline in [true, false] {
+                rec.case("line-length-small-offset");
+                rec.nontrivial();
+                let mut d = ConnDriver::new(rec, 51200);
+                let line_no_crlf = len - 2;
+                let mut first: Vec<u8>;
+                let second: Vec<u8>;
+                if is_reqline {
+                    // read 1: a PUT with all of its body but the last k bytes; read 2: those k bytes + the long request line
+                    let body = gen::body_bytes(rng, 40);
+                    let mut all = format!("PUT /p HTTP/1.1\r\nContent-Length: {}\r\n\r\n", body.len()).into_bytes();
+                    all.extend_from_slice(&body);
+                    let cut = all.len() - k;
+                    first = all[..cut].to_vec();
+                    let mut s2 = all[cut..].to_vec();
+                    let ul = line_no_crlf.saturating_sub(13);
+                    s2.extend_from_slice(format!("GET /{} HTTP/1.1\r\n\r\n", "u".repeat(ul.saturating_sub(1))).as_bytes());
+                    second = s2;
+                } else {
+                    // read 1: a request line and a header line without its last k bytes (carried over); read 2: those k bytes
+                    // (ending the line) + the long header line
+                    let short = b"X-Short: carried-over-value\r\n";
+                    first = b"GET /h HTTP/1.1\r\n".to_vec();
+                    let kk = k.min(short.len() - 1);
+                    first.extend_from_slice(&short[..short.len() - kk]);
+                    let mut s2 = short[short.len() - kk..].to_vec();
+                    s2.extend_from_slice(format!("L: {}\r\n\r\n", "l".repeat(line_no_crlf.saturating_sub(3))).as_bytes());
+                    second = s2;
+                }
+                d.recv(rec, &first, 0);
+                let mut err: Option<String> = None;
+                for r in d.recv(rec, &second, 0) {
+                    if r.starts_with("parse(") && err.is_none() {
+                        err = Some(r);
+                    }
+                }
+                let del = d.popall(rec);
+                let too_long = len > 1024;
+                let got_len_err = match &err {
+                    Some(e) if is_reqline => e == "parse(InvalidRequest)",
+                    Some(e) => e.starts_with("parse(HeaderError(SizeLimitExceeded("),
+                    None => false,
+                };
+                let delivered_long = del.iter().any(|x| x.text_nofiles.contains(if is_reqline { "u=2f7575" } else { "u=2f68 " }));
+                if too_long != got_len_err || too_long == delivered_long || (!too_long && err.is_some()) {
+                    rec.oracle_fail("C04", &format!("line of {} bytes (incl. CRLF) starting at buffer offset {}: error {:?}, delivered {}", len, k, err, delivered_long), &d.log);
+                }
             }
         }
     }
